@@ -1142,7 +1142,13 @@ def run(ctx):
         consts = consts_c10.read_consts()
     except Exception as e:
         ctx.tie_broken("constants-translator", str(e))
-        return
+        # the violation is reported whatever follows; go on with the constants of the last successful
+        # translation to look for a concrete failing input
+        try:
+            consts = consts_c10.last_good()
+            ctx.note("constants of the last successful translation are used to search for a failing input")
+        except Exception:
+            return
     if sys.byteorder != "little":
         ctx.note("big-endian host: the byte-level comparison of the trailer is skipped")
     SWEEP = sweep_cmds()
